@@ -540,6 +540,7 @@ class FelicaLite(tt3.Type3Tag):
 
             # if password is empty use factory key of 16 zero bytes
             key = password[0:16] if password else b"\0"*16
+            key = key.encode("ascii") if isinstance(key, str) else bytes(key)
 
             log.debug("protect with key %s", hexlify(key).decode())
             self.write_without_mac(key[7::-1] + key[15:7:-1], 0x87)
@@ -587,6 +588,7 @@ class FelicaLite(tt3.Type3Tag):
         # has the same card key as in password. If the password is
         # empty, we'll try with the factory key.
         key = b"\0" * 16 if not password else password[0:16]
+        key = key.encode("ascii") if isinstance(key, str) else bytes(key)
 
         log.debug("authenticate with key {}".format(hexlify(key).decode()))
         self._authenticated = False
